@@ -56,7 +56,7 @@ static bool free_returned;
 static int begun_at_free[64], ended_at_free[64];
 static int clear_calls_returned;
 
-static bool free_called, shutdown_waiting; static int gate_cell = -1;
+static bool free_called, shutdown_waiting, backlog_submitted; static int gate_cell = -1, pre_cell = -1;
 static void *task(void *arg) {
     Cell *c = (Cell *)arg;
     if (c < cells || c >= cells + 64 || c->id != (int)(c - cells)) { g_v.fail("C06.1", "task received an argument that is not the one it was submitted with"); return nullptr; }
@@ -70,6 +70,7 @@ static void *task(void *arg) {
     // once the freeing thread waits inside m_thpool_free(wait_all=false) the shutdown has been requested: only tasks already in progress may go on
     if (shutdown_waiting && !g_case->wait_all && !free_returned) g_v.fail("C06.4", "task " + std::to_string(c->id) + " was started after m_thpool_free(wait_all=false) had requested the shutdown and was waiting for the task in progress: tasks that had not started must be discarded");
     sched::yield_point("tb");
+    if (c->id == pre_cell) { long spins = 0; while (!backlog_submitted && ++spins < 20000) sched::yield_point("tp"); } // keeps the (only) worker busy until the whole backlog is queued
     if (c->id == gate_cell) {
         // the gate task stays in progress until the freeing thread is parked inside m_thpool_free
         long spins = 0;
@@ -158,12 +159,14 @@ static rt::Verdict run_case(const Case &c, const rt::Args &) {
     int fl = ((c.flags & 1) ? M_THPOOL_LAZY : 0) | ((c.flags & 2) ? M_THPOOL_DETACHED : 0);
     pool = m_thpool_new((uint8_t)c.threads, (m_thpool_flags)fl);
     if (!pool) { g_v.fail("C06.8", "m_thpool_new returned NULL"); finish(nullptr); }
-    free_called = shutdown_waiting = false; gate_cell = -1;
+    free_called = shutdown_waiting = backlog_submitted = false; gate_cell = pre_cell = -1;
     if (c.backlog > 0) {
         std::vector<std::pair<int, int>> pre;
+        pre_cell = ncells; pre.push_back({0, ncells++});
         gate_cell = ncells; pre.push_back({0, ncells++});
         for (int i = 0; i < c.backlog && ncells < 62; i++) pre.push_back({0, ncells++});
         do_sub_ops(pre);
+        backlog_submitted = true;
     }
     std::vector<int> ids;
     for (auto &s : subs) ids.push_back(sched::spawn_thread(submitter, &s, sched::ROLE_SUBMITTER));
@@ -204,7 +207,7 @@ static rc::Gen<Case> gen_case(const rt::Args &) {
                                gens::vec<std::vector<int>>(1, 3, subops), gens::vec<int>(0, 2, gens::weighted_values<int>({{3, 0}, {1, 1}, {1, 2}})),
                                gen::resize(100, gen::container<std::vector<unsigned char>>(gen::arbitrary<unsigned char>()))),
                     [](std::tuple<int, int, int, int, std::vector<std::vector<int>>, std::vector<int>, std::vector<unsigned char>> t) {
-                        Case c; c.threads = std::get<0>(t); c.flags = std::get<1>(t) % 8; c.prior = std::get<1>(t) / 8 - 1; c.wait_all = std::get<2>(t) % 2; c.backlog = std::get<2>(t) / 2; if (c.backlog && c.threads > 2) c.threads = 1; c.spurious = std::get<3>(t);
+                        Case c; c.threads = std::get<0>(t); c.flags = std::get<1>(t) % 8; c.prior = std::get<1>(t) / 8 - 1; c.wait_all = std::get<2>(t) % 2; c.backlog = std::get<2>(t) / 2; if (c.backlog) c.threads = 1; c.spurious = std::get<3>(t);
                         c.subs = std::get<4>(t); c.main_ops = std::get<5>(t); c.choices = std::get<6>(t);
                         if (c.choices.size() > 300) c.choices.resize(300);
                         return c;
